@@ -36,3 +36,5 @@ for p in "$@"; do
   res "check $p: exit $rc: $(grep -c '^VIOLATION' $out/check_$p.log) VIOLATION line(s): $(grep '^VIOLATION' $out/check_$p.log | head -3 | tr '\n' ' ')"
 done
 git -C /repo checkout -- . ; git -C /repo status --short | grep -v '^??' | head -3
+# regenerate the fact tables from the restored tree (they were regenerated from the changed tree by the checks above)
+( cd /verif/go && export CGO_ENABLED=0 && go build -tags verif -o bin/ ./... && ./bin/extract -repo /repo -out /verif/lean/AL/Gen -facts /verif/evidence/facts.json ) > /dev/null 2>&1
